@@ -1182,6 +1182,14 @@ M('sweep11.macros.check_evt_props_ok', ['C02'], 'macros/src/span.rs',
 M("C16.rev_fix_hole_value_gets_outer_formatter", ["C16"], "core/src/template.rs",
   "        self.write_fmt(format_args!(\"{}\", value))", "        fmt::Display::fmt(&value, self)", "C16.R2:hole-values-flag-neutral")
 
+# ---- reverse patch of fix a125679 (D26: gRPC status only read from trailers) ---------------------------------------------------------------
+M("C12.rev_fix_grpc_status_trailers_only", ["C12"], "emitter/otlp/src/client.rs",
+  """                            let mut status = res
+                                .header("grpc-status")
+                                .and_then(|v| v.parse().ok())
+                                .unwrap_or(0);""",
+  """                            let mut status = 0;""", "C12.R5:grpc-status-in-headers")
+
 # ---- round 6 (own probing of the blocking entry points): Trigger, send_or_wait, callbacks ------------------------------------------
 M("C07.wait_zero_timeout_reports_flushed", ["C07"], "batcher/src/sync.rs",
   "            if timeout == Duration::ZERO {\n                return false;", "            if timeout == Duration::ZERO {\n                return true;", "C07.R4:Trigger")
